@@ -7,9 +7,11 @@ package llamarunner
 
 import (
 	"fmt"
+	"os"
 	"strconv"
 	"strings"
 	"testing"
+	"testing/synctest"
 	"time"
 
 	"github.com/ollama/ollama/zzverif"
@@ -141,5 +143,508 @@ func TestVerifC07LL(t *testing.T) {
 		if il == ctx && (d < 1 || k+d > il) {
 			out.L2("ll-discard", fmt.Sprintf("ll-discard %d %d %d", ctx, il, k), "a full context must discard between 1 and len-keep inputs")
 		}
+	}
+}
+
+// ------------------------------------------------------------------ record histories
+//
+// TestVerifC07LLHist drives the slot records of the llama.cpp runner over request histories.  The slot
+// selection (findLongestCacheSlot / findBestCacheSlot incl. the fork), countCommonPrefix and
+// ShiftDiscard are the REAL functions on the REAL InputCache/InputCacheSlot values.  LoadCacheSlot and
+// ShiftCacheSlot call into llama.cpp unconditionally (c.lc), which needs a loaded model: their
+// remaining statements are replayed here verbatim, with each llama.cpp KV call replaced by the same
+// operation on a shadow of the KV sequences (kv[seq] = tokens by position; modelled, not verified).
+// Records are appended with the runner's own statement (seq.cache.Inputs = append(seq.cache.Inputs, ...)).
+
+type v7llH struct {
+	c        *InputCache
+	kv       map[int][]int
+	canShift bool
+	ctx      int
+	out      *zzverif.Out
+	start    time.Time
+	pending  map[int][]int // inputs the request owning the slot still has to decode
+	keep     map[int]int
+	events   []string
+	obs      []string
+	fails    [][2]string
+}
+
+func v7llInts(xs []int) string {
+	if len(xs) == 0 {
+		return "-"
+	}
+	ss := make([]string, len(xs))
+	for i, x := range xs {
+		ss[i] = strconv.Itoa(x)
+	}
+	return strings.Join(ss, ",")
+}
+
+func v7llTokInts(in []input) []int {
+	o := make([]int, len(in))
+	for i, x := range in {
+		o[i] = x.token
+	}
+	return o
+}
+
+func v7llMk(toks []int) []input {
+	o := make([]input, len(toks))
+	for i, t := range toks {
+		o[i] = input{token: t}
+	}
+	return o
+}
+
+func (h *v7llH) l2(kind, detail string) { h.fails = append(h.fails, [2]string{kind, detail}) }
+
+func (h *v7llH) tick(t time.Time) int {
+	if t.IsZero() {
+		return 0
+	}
+	return int(t.Sub(h.start) / time.Millisecond)
+}
+
+func (h *v7llH) state() string {
+	var sb strings.Builder
+	for i := range h.c.slots {
+		sl := &h.c.slots[i]
+		u := 0
+		if sl.InUse {
+			u = 1
+		}
+		fmt.Fprintf(&sb, "S%d:%d:%d:%s;", sl.Id, u, h.tick(sl.lastUsed), v7llInts(v7llTokInts(sl.Inputs)))
+	}
+	return sb.String()
+}
+
+func (h *v7llH) records() [][]int {
+	o := make([][]int, len(h.c.slots))
+	for i := range h.c.slots {
+		o[i] = v7llTokInts(h.c.slots[i].Inputs)
+	}
+	return o
+}
+
+// L2 after every event: (1) records of slots the event did not operate on are unchanged (records of
+// different slots never share storage); (2) every record is what its KV sequence holds (exactly for a
+// slot in use, as a prefix for a released slot whose record was cut by the stop handling).
+func (h *v7llH) monitors(ev string, before [][]int, touched int) {
+	for i := range h.c.slots {
+		sl := &h.c.slots[i]
+		rec := v7llTokInts(sl.Inputs)
+		if i != touched && v7llInts(rec) != v7llInts(before[i]) {
+			h.l2("ll-record-aliasing", fmt.Sprintf("%s on slot %d changed the record of slot %d (in use: %v) from %s to %s", ev, touched, i, sl.InUse, v7llInts(before[i]), v7llInts(rec)))
+		}
+		kv := h.kv[sl.Id]
+		ok := len(kv) >= len(rec) && v7llInts(kv[:len(rec)]) == v7llInts(rec)
+		if sl.InUse && len(kv) != len(rec) {
+			ok = false
+		}
+		if !ok {
+			h.l2("ll-coherent", fmt.Sprintf("after %s: slot %d (in use: %v) records %s but its KV sequence holds %s", ev, i, sl.InUse, v7llInts(rec), v7llInts(kv)))
+		}
+	}
+}
+
+func (h *v7llH) doLoad(cachePrompt bool, promptToks []int) string {
+	c := h.c
+	prompt := v7llMk(promptToks)
+	before := h.records()
+	inUse := make([]bool, len(c.slots))
+	for i := range c.slots {
+		inUse[i] = c.slots[i].InUse
+	}
+	// which slot findBestCacheSlot will regard as the longest match (first strict maximum over all slots)
+	longestIdx, longest := -1, -1
+	for i := range c.slots {
+		if n := countCommonPrefix(c.slots[i].Inputs, prompt); n > longest {
+			longest, longestIdx = n, i
+		}
+	}
+	var slot *InputCacheSlot
+	var numPast int
+	var err error
+	panicked := false
+	func() {
+		defer func() {
+			if p := recover(); p != nil {
+				panicked = true
+			}
+		}()
+		// --- LoadCacheSlot, first statement (real)
+		if !c.multiUserCache {
+			slot, numPast, err = c.findLongestCacheSlot(prompt)
+		} else {
+			slot, numPast, err = c.findBestCacheSlot(prompt)
+		}
+	}()
+	if panicked {
+		h.out.Count("llh_load_panic")
+		h.monitors("load(panic)", before, -1)
+		return "load:panic"
+	}
+	if err != nil {
+		h.out.Count("llh_load_err")
+		h.monitors("load(err)", before, -1)
+		return "load:err"
+	}
+	if inUse[slot.Id] {
+		h.l2("ll-slot-exclusive", fmt.Sprintf("slot %d was in use and has been selected", slot.Id))
+	}
+	if c.multiUserCache && numPast > 0 && slot.Id != longestIdx &&
+		!(longest == len(before[longestIdx]) && !inUse[longestIdx]) {
+		// fork: c.lc.KvCacheSeqRm(dst, 0, -1); c.lc.KvCacheSeqCp(src, dst, 0, longest)
+		src := h.kv[longestIdx]
+		h.kv[slot.Id] = append([]int(nil), src[:min(numPast, len(src))]...)
+		h.out.Count("llh_fork")
+		if numPast < len(before[longestIdx]) {
+			h.out.Count("llh_fork_proper_prefix")
+		}
+	}
+	// --- rest of LoadCacheSlot (replayed; llama.cpp calls on the shadow)
+	if !cachePrompt {
+		numPast = 0
+	}
+	slot.InUse = true
+	slot.lastUsed = time.Now()
+	if numPast == len(prompt) {
+		numPast--
+	}
+	// c.lc.KvCacheSeqRm(slot.Id, numPast, -1)
+	if kv := h.kv[slot.Id]; len(kv) > numPast {
+		h.kv[slot.Id] = kv[:numPast]
+	}
+	prompt = prompt[numPast:]
+	slot.Inputs = slot.Inputs[:numPast]
+	// ---
+	if numPast > 0 {
+		h.out.Count("llh_prefix_reused")
+	}
+	rec := v7llTokInts(slot.Inputs)
+	if v7llInts(append(append([]int(nil), rec...), v7llTokInts(prompt)...)) != v7llInts(promptToks) || len(prompt) < 1 {
+		h.l2("ll-prefix-reuse", fmt.Sprintf("slot %d record %s ++ remaining %s is not the prompt %s", slot.Id, v7llInts(rec), v7llInts(v7llTokInts(prompt)), v7llInts(promptToks)))
+	}
+	h.pending[slot.Id] = v7llTokInts(prompt)
+	h.monitors("load", before, slot.Id)
+	h.out.Count("llh_load_ok")
+	return fmt.Sprintf("load:ok,slot=%d,rest=%d", slot.Id, len(prompt))
+}
+
+func (h *v7llH) doDec(i int, toks []int) string {
+	before := h.records()
+	sl := &h.c.slots[i]
+	// processBatch after Decode: seq.cache.Inputs = append(seq.cache.Inputs, seq.pendingInputs...)
+	sl.Inputs = append(sl.Inputs, v7llMk(toks)...)
+	h.kv[sl.Id] = append(h.kv[sl.Id], toks...)
+	h.monitors("decode", before, i)
+	h.out.Add("llh_decoded", len(toks))
+	return "dec"
+}
+
+func (h *v7llH) doShift(i, numKeep int) string {
+	c := h.c
+	before := h.records()
+	slot := &c.slots[i]
+	res := ""
+	// --- ShiftCacheSlot (replayed; ShiftDiscard is the real function)
+	if numKeep >= c.numCtx {
+		res = "shift:errkeep"
+	} else {
+		inputLen := len(slot.Inputs)
+		discard := c.ShiftDiscard(inputLen, numKeep)
+		if discard <= 0 {
+			res = "shift:ok"
+		} else if !h.canShift {
+			newInputs := make([]input, numKeep+inputLen-(numKeep+discard))
+			copy(newInputs[:numKeep], slot.Inputs[:numKeep])
+			copy(newInputs[numKeep:], slot.Inputs[numKeep+discard:])
+			h.kv[slot.Id] = nil // c.lc.KvCacheSeqRm(slot.Id, 0, -1)
+			slot.Inputs = []input{}
+			h.pending[slot.Id] = append(v7llTokInts(newInputs), h.pending[slot.Id]...)
+			res = "shift:reproc," + v7llInts(v7llTokInts(newInputs))
+			h.out.Count("llh_shift_reprocess")
+		} else {
+			// c.lc.KvCacheSeqRm(slot.Id, numKeep, numKeep+discard); c.lc.KvCacheSeqAdd(..., -discard)
+			kv := h.kv[slot.Id]
+			h.kv[slot.Id] = append(append([]int(nil), kv[:numKeep]...), kv[numKeep+discard:]...)
+			for j := numKeep + discard; j < inputLen; j++ {
+				slot.Inputs[j-discard] = slot.Inputs[j]
+			}
+			slot.Inputs = slot.Inputs[:inputLen-discard]
+			res = "shift:ok"
+			h.out.Count("llh_shift_ok")
+		}
+	}
+	h.monitors("shift", before, i)
+	return res
+}
+
+func (h *v7llH) doCut(i, k int) string {
+	before := h.records()
+	sl := &h.c.slots[i]
+	sl.Inputs = sl.Inputs[:min(k, len(sl.Inputs))] // seq.cache.Inputs = seq.cache.Inputs[:tokenLen]
+	sl.InUse = false
+	delete(h.pending, i)
+	h.monitors("stop-cut", before, i)
+	return "cut"
+}
+
+func (h *v7llH) doRel(i int) string {
+	before := h.records()
+	h.c.slots[i].InUse = false
+	delete(h.pending, i)
+	h.monitors("release", before, i)
+	return "rel"
+}
+
+func (h *v7llH) exec(ev string) {
+	time.Sleep(time.Millisecond)
+	f := strings.Fields(ev)
+	at := func(i int) int {
+		v, err := strconv.Atoi(f[i])
+		if err != nil {
+			panic(err)
+		}
+		return v
+	}
+	list := func(i int) []int {
+		n := at(i)
+		o := make([]int, n)
+		for j := range o {
+			o[j] = at(i + 1 + j)
+		}
+		return o
+	}
+	var o string
+	switch f[0] {
+	case "load":
+		o = h.doLoad(at(1) != 0, list(2))
+	case "dec":
+		o = h.doDec(at(1), list(2))
+	case "shift":
+		o = h.doShift(at(1), at(2))
+	case "cut":
+		o = h.doCut(at(1), at(2))
+	case "rel":
+		o = h.doRel(at(1))
+	default:
+		panic("bad event " + ev)
+	}
+	h.events = append(h.events, ev)
+	h.obs = append(h.obs, o+" {"+h.state()+"}")
+}
+
+func (h *v7llH) flush(header string) {
+	line := fmt.Sprintf("%s %d %s", header, len(h.events), strings.Join(h.events, " "))
+	h.out.Case(line, strings.Join(h.obs, " | "))
+	h.out.Count("llh_cases")
+	h.out.Add("llh_events", len(h.events))
+	seen := map[string]bool{}
+	for _, f := range h.fails {
+		if !seen[f[0]] {
+			seen[f[0]] = true
+			h.out.L2(f[0], line, f[1])
+		}
+	}
+}
+
+func v7llNew(parallel, ctx int, multi, canShift bool, out *zzverif.Out) *v7llH {
+	c, err := NewInputCache(nil, parallel*ctx, parallel, multi)
+	if err != nil {
+		panic(err)
+	}
+	return &v7llH{c: c, kv: map[int][]int{}, canShift: canShift, ctx: ctx, out: out, start: time.Now(),
+		pending: map[int][]int{}, keep: map[int]int{}}
+}
+
+func v7llList(xs []int) string {
+	ss := make([]string, len(xs)+1)
+	ss[0] = strconv.Itoa(len(xs))
+	for i, x := range xs {
+		ss[i+1] = strconv.Itoa(x)
+	}
+	return strings.Join(ss, " ")
+}
+
+func v7llGenerate(r *zzverif.Rng, out *zzverif.Out) {
+	parallel := r.Range(1, 4)
+	if r.Chance(2, 3) {
+		parallel = r.Range(2, 4)
+	}
+	ctx := r.Pick3(4, 12, 32)
+	multi := r.Chance(2, 3)
+	canShift := r.Chance(3, 4)
+	vocab := r.Range(2, 6)
+	b := func(x bool) int {
+		if x {
+			return 1
+		}
+		return 0
+	}
+	header := fmt.Sprintf("llhist %d %d %d %d", parallel, ctx, b(multi), b(canShift))
+	h := v7llNew(parallel, ctx, multi, canShift, out)
+	randToks := func(n int) []int {
+		o := make([]int, n)
+		for i := range o {
+			o[i] = r.Intn(vocab)
+		}
+		return o
+	}
+	clip := func(p []int) []int {
+		if len(p) > ctx {
+			p = p[:ctx]
+		}
+		if len(p) == 0 {
+			p = randToks(1)
+		}
+		return p
+	}
+	genPrompt := func() []int {
+		var recs [][]int
+		for i := range h.c.slots {
+			if len(h.c.slots[i].Inputs) > 0 {
+				recs = append(recs, v7llTokInts(h.c.slots[i].Inputs))
+			}
+		}
+		if len(recs) == 0 || r.Chance(1, 6) {
+			return clip(randToks(r.Range(1, ctx)))
+		}
+		rec := zzverif.Pick(r, recs)
+		switch r.Intn(6) {
+		case 0: // exact repeat of a record
+			return clip(append([]int(nil), rec...))
+		case 1, 2: // proper prefix of a record + a different continuation (fork under the multi-user policy)
+			k := r.Range(1, len(rec))
+			return clip(append(append([]int(nil), rec[:k]...), randToks(r.Range(1, 4))...))
+		case 3: // proper prefix only
+			return clip(append([]int(nil), rec[:r.Range(1, len(rec))]...))
+		default: // follow-up turn: the whole record + new inputs
+			return clip(append(append([]int(nil), rec...), randToks(r.Range(1, 3))...))
+		}
+	}
+	budget := r.Range(6, 60)
+	for n := 0; n < budget; n++ {
+		var free, busy []int
+		for i := range h.c.slots {
+			if h.c.slots[i].InUse {
+				busy = append(busy, i)
+			} else {
+				free = append(free, i)
+			}
+		}
+		switch {
+		case len(free) > 0 && (len(busy) == 0 || r.Chance(1, 3)):
+			cp := 1
+			if r.Chance(1, 10) {
+				cp = 0
+			}
+			before := len(h.events)
+			h.exec(fmt.Sprintf("load %d %s", cp, v7llList(genPrompt())))
+			_ = before
+			for i := range h.c.slots {
+				if _, ok := h.keep[i]; !ok || !h.c.slots[i].InUse {
+					h.keep[i] = zzverif.Pick(r, []int{0, 0, 1, 2, ctx / 2, ctx - 1})
+				}
+			}
+		case len(free) == 0 && r.Chance(1, 25):
+			h.exec("load 1 " + v7llList(genPrompt()))
+		default:
+			i := zzverif.Pick(r, busy)
+			sl := &h.c.slots[i]
+			pend := h.pending[i]
+			if len(pend) == 0 && r.Chance(1, 6) {
+				// request ends: EOS / limit, or a stop string that cuts the record
+				if r.Chance(1, 3) && len(sl.Inputs) > 0 {
+					h.exec(fmt.Sprintf("cut %d %d", i, len(sl.Inputs)-r.Intn(min(3, len(sl.Inputs)))))
+				} else {
+					h.exec(fmt.Sprintf("rel %d", i))
+				}
+				continue
+			}
+			if len(sl.Inputs)+1 > ctx {
+				h.exec(fmt.Sprintf("shift %d %d", i, h.keep[i]))
+				continue
+			}
+			var toks []int
+			if len(pend) > 0 {
+				k := min(r.Range(1, 4), len(pend), ctx-len(sl.Inputs))
+				toks = pend[:k]
+				h.pending[i] = pend[k:]
+			} else {
+				toks = randToks(1) // a generated token
+			}
+			h.exec(fmt.Sprintf("dec %d %s", i, v7llList(toks)))
+		}
+	}
+	h.flush(header)
+	out.Count(fmt.Sprintf("llh_cfg_parallel_%d", parallel))
+	if multi {
+		out.Count("llh_cfg_multiuser")
+	}
+}
+
+func v7llReplay(line string, out *zzverif.Out) {
+	f := strings.Fields(line)
+	at := func(i int) int {
+		v, err := strconv.Atoi(f[i])
+		if err != nil {
+			panic(err)
+		}
+		return v
+	}
+	h := v7llNew(at(1), at(2), at(3) != 0, at(4) != 0, out)
+	n := at(5)
+	i := 6
+	for range n {
+		start := i
+		switch f[i] {
+		case "load":
+			i += 3 + at(i+2)
+		case "dec":
+			i += 3 + at(i+2)
+		case "shift", "cut":
+			i += 3
+		case "rel":
+			i += 2
+		default:
+			panic("bad event " + f[i])
+		}
+		h.exec(strings.Join(f[start:i], " "))
+	}
+	h.flush(strings.Join(f[:5], " "))
+}
+
+func TestVerifC07LLHist(t *testing.T) {
+	out := zzverif.NewOut()
+	defer out.Close()
+	bubble := func(f func()) { synctest.Test(t, func(t *testing.T) { f() }) }
+	if p := os.Getenv("VERIF_REPLAY"); p != "" {
+		raw, err := os.ReadFile(p)
+		if err != nil {
+			t.Fatal(err)
+		}
+		for _, line := range strings.Split(string(raw), "\n") {
+			if strings.HasPrefix(line, "llhist ") {
+				bubble(func() { v7llReplay(line, out) })
+			}
+		}
+		return
+	}
+	if p := os.Getenv("VERIF_C07_CORPUS"); p != "" {
+		if raw, err := os.ReadFile(p); err == nil {
+			for _, line := range strings.Split(string(raw), "\n") {
+				if strings.HasPrefix(line, "llhist ") {
+					bubble(func() { v7llReplay(line, out) })
+				}
+			}
+		}
+	}
+	root := zzverif.NewRng(zzverif.Seed())
+	n := zzverif.EnvInt("VERIF_N", 500)
+	for range n {
+		r := root.Fork()
+		bubble(func() { v7llGenerate(r, out) })
 	}
 }
